@@ -348,6 +348,37 @@ def D2_extra():
     return out
 
 
+def DX():
+    """Shapes beyond the small menus: many bins, three-member collections, depth 3 and 4, aggregators in every flow
+    slot, mixed quantity kinds. Part of the quick tier of most checks."""
+    cnt, sx, sy = {"t": "Count"}, {"t": "Sum", "q": "x"}, {"t": "Sum", "q": "y"}
+    avg, dev, mn = {"t": "Average", "q": "y"}, {"t": "Deviate", "q": "y"}, {"t": "Minimize", "q": "y"}
+    bin6 = lambda v, q="x": {"t": "Bin", "p": [6, 0.0, 3.0], "q": q, "v": v}  # noqa: E731
+    irr4 = lambda v, q="x": {"t": "IrregularlyBin", "p": [-1.0, 0.0, 1.0, 2.0], "q": q, "v": v}  # noqa: E731
+    cen5 = lambda v, q="x": {"t": "CentrallyBin", "p": [0.0, 1.0, 3.0, 7.0, 8.0], "q": q, "v": v}  # noqa: E731
+    stk3 = lambda v, q="x": {"t": "Stack", "p": [0.0, 1.0, 2.0], "q": q, "v": v}  # noqa: E731
+    sel = lambda v: {"t": "Select", "q": "s", "v": v}  # noqa: E731
+    cat = lambda v: {"t": "Categorize", "q": "c", "v": v}  # noqa: E731
+    b2 = lambda v, q="x": {"t": "Bin", "p": BIN_CFG[0], "q": q, "v": v}  # noqa: E731
+    sp = lambda v, q="x": {"t": "SparselyBin", "p": SPARSE_CFG[1], "q": q, "v": v}  # noqa: E731
+    out = [
+        bin6(cnt), bin6(sy), irr4(cnt), irr4(avg), cen5(cnt), cen5(sy), stk3(cnt), stk3(mn), sp(dev),
+        {"t": "Label", "ch": {"a": sx, "b": sy, "c": {"t": "Sum", "q": "x"}}},
+        {"t": "Index", "ch": [sx, sy, {"t": "Sum", "q": "x"}]},
+        {"t": "Branch", "ch": [cnt, sx, b2(cnt, "y")]},
+        {"t": "UntypedLabel", "ch": {"a": cnt, "b": sy, "c": {"t": "Average", "q": "x"}}},
+        sel(b2(sy)), b2(sel(cnt)), cat(b2(avg)), b2({"t": "Branch", "ch": [cnt, sy]}),
+        {"t": "Fraction", "q": "s", "v": sp(cnt)},
+        sel(cat(b2(sy))), b2(b2({"t": "Branch", "ch": [cnt, dev]}, "y")),
+        {"t": "Label", "ch": {"a": sel(b2(sy)), "b": sel(b2(sy))}},
+        {"t": "Bin", "p": BIN_CFG[0], "q": "x", "v": cnt, "uf": b2(cnt, "y"), "of": avg, "nf": cat(cnt)},
+        {"t": "Bin", "p": BIN_CFG[1], "q": "x", "qk": "str", "v": {"t": "Sum", "q": "y", "qk": "named"}},
+        {"t": "Select", "q": "s", "qk": "cached", "v": {"t": "Bin", "p": BIN_CFG[0], "q": "x", "qk": "def", "v": cnt}},
+        {"t": "Categorize", "q": "c", "qk": "named_cached", "v": {"t": "Deviate", "q": "y", "qk": "str"}},
+    ]
+    return out
+
+
 def D3_leaves():
     return [{"t": "Count"}, {"t": "Sum", "q": "y"}, {"t": "Average", "q": "y"}, {"t": "Bag", "q": "y", "range": "N"}]
 
